@@ -155,6 +155,11 @@ def c15_streams(rng, tier, budget):
                 st2.obs_all(st2.mod(bx, "truediv", enc("../" + "/".join(seq))), C15_OBS)
             r = st2.new("/".join(seq))
             st2.obs_all(st2.join(base, r), C15_OBS)
+            # every base shape of RFC 3986 5.2.3: last segment replaced, trailing slash, EMPTY base path under an authority ("/" + reference),
+            # root only; and a rooted reference
+            for bh in (base2, base3, base4):
+                st2.obs_all(st2.join(bh, r), C15_OBS)
+            st2.obs_all(st2.join(base3, st2.new("/" + "/".join(seq))), C15_OBS)
     for _ in range(int((100 if tier == "quick" else 1500) * budget)):
         seq = [pick(rng, SEGS + ["b", "c.d", "..."]) for _ in range(rng.randint(5, 12))]
         p = "/" + "/".join(seq)
